@@ -62,7 +62,7 @@ std::string Plan::to_text() const {
 	for (size_t t = 0; t < tasks.size(); ++t) {
 		auto &k = tasks[t];
 		o << "task kind=" << k.kind << " policy=" << k.policy << " trunc=" << k.trunc << " errat=" << k.errat
-		  << " skipfail=" << k.skipfail << " seekerr=" << k.seekerr << " skippast=" << k.skippast << (k.endless ? " endless=1" : "")
+		  << " skipfail=" << k.skipfail << " seekerr=" << k.seekerr << " skippast=" << k.skippast << (k.endless ? " endless=1" : "") << (k.prepos ? " prepos=" + std::to_string(k.prepos) : std::string(""))
 		  << (k.erronce ? " erronce=1" : "") << (k.errerrno != 5 ? " errerrno=" + std::to_string(k.errerrno) : std::string(""))
 		  << " dir=" << hx(k.dir) << "\n";
 		for (auto &op : k.ops)
@@ -212,6 +212,7 @@ bool Plan::from_text(const std::string &text, Plan &p, std::string &err) {
 			t.seekerr = (int) ki(kv, "seekerr", 0);
 			t.skippast = (int) ki(kv, "skippast", 0);
 			t.endless = (int) ki(kv, "endless", 0);
+			t.prepos = ki(kv, "prepos", 0);
 			t.erronce = (int) ki(kv, "erronce", 0);
 			t.errerrno = (int) ki(kv, "errerrno", 5);
 			t.dir = kh(kv, "dir");
